@@ -832,6 +832,7 @@ func main() {
 			cs = genCase(r.Rand("c18-case", w.CaseIndex), w.CaseIndex, true)
 		}
 		m.judge(cs, m.run(cs))
+		os.RemoveAll(m.dir)
 		r.Finish()
 	}
 
